@@ -662,6 +662,13 @@ func TestOperandsAndSuccessors(t *testing.T) {
 		} else {
 			hx.Discard("constructor_panics(judged_by_C03)")
 		}
+		// the same program with equal constants and equal literal types held as one object each: a constant that is
+		// the operand of several instructions is still one slot per use, and a write through one of them changes
+		// that use only
+		if pp := lx.Guard(func() { im, _ = emit.ModuleShared(m) }); pp == nil {
+			checkModule(rt, test, m, im, "constructed with constants and types shared between the places that use them")
+			hx.Hist("constructed_with_shared_objects")
+		}
 		if feats["call/bundle"]+feats["inst/phi"]+feats["term/switch"]+feats["term/invoke"]+feats["inst/getelementptr"] > 0 {
 			hx.NonTrivial(x)
 		}
